@@ -1,6 +1,6 @@
 (* C08 — property theorems (statements only; proofs live in Proofs*.v).  See notes/C08.md for the status of each. *)
 From Coq Require Import List ZArith QArith Qabs Bool.
-Require Import QV.C08.Model QV.C08.Spec QV.C08.Wf QV.C08.Proofs QV.C08.ProofsVec QV.C08.ProofsRev QV.C08.ProofsConst QV.C08.ProofsTotal QV.C08.ProofsProper QV.C08.ProofsCtor QV.C08.Hist QV.C08.ProofsHist QV.C08.ProofsTrafo QV.C08.ProofsConstT QV.C08.ProofsTotalT QV.C08.ProofsTable QV.C08.ProofsPar QV.C08.ProofsOp QV.C08.ProofsFlat QV.C08.ProofsDen.
+Require Import QV.C08.Model QV.C08.Spec QV.C08.Wf QV.C08.Proofs QV.C08.ProofsVec QV.C08.ProofsRev QV.C08.ProofsConst QV.C08.ProofsTotal QV.C08.ProofsProper QV.C08.ProofsCtor QV.C08.Hist QV.C08.ProofsHist QV.C08.ProofsTrafo QV.C08.ProofsConstT QV.C08.ProofsTotalT QV.C08.ProofsTable QV.C08.ProofsPar QV.C08.ProofsOp QV.C08.ProofsFlat QV.C08.ProofsDen QV.C08.ProofsSimple.
 Import ListNotations.
 Open Scope Q_scope.
 
@@ -202,6 +202,16 @@ Print Assumptions C08_from_operator_const.
 Theorem C08_from_operator_plain : forall l o r, (cvd l = None \/ cvd r = None) -> from_operator l o r = mk_arith l o r.
 Proof. exact from_operator_plain. Qed.
 Print Assumptions C08_from_operator_plain.
+
+(* from_transformation: constant folding through a transformation without LinearTransformation parts (identity, scaling,
+   offset, parallel-channel, chains): the complete constant dict is transformed, the plain waveform transforms only the
+   channels get_input_channels selects: same samples.  (With linear parts: only tested.) *)
+Theorem C08_from_transformation_const : forall w T d w', okb (WTrans w T) = true -> simple T = true ->
+  cvd w = Some d -> t_const_inv T = true -> from_transformation w T = OK w' -> forall c t,
+  inb c (channels (WTrans w T)) = true -> 0 <= t -> t < duration w ->
+  oQeq (sample w' c t) (sample (WTrans w T) c t).
+Proof. exact from_transformation_const_sound. Qed.
+Print Assumptions C08_from_transformation_const.
 
 Definition C08_constructors_statement : Prop :=
   forall r w wp, build r = OK w -> build_plain r = OK wp -> forall c t,
